@@ -19,6 +19,7 @@ Base(k) == LET p == Picks[k] IN
 \* RealOK: the transcription of the real reader reads it back without any memory-unsafe event)
 ValidBase(b) == b.c = "Raw" \/ LET ri == ReadF(b.c, b.L, "ideal") IN ri.ok /\ ri.o = b.o
 RealOK(b) == LET rr == ReadF(b.c, b.L, "real") IN rr.ok /\ rr.ev \cap UnsafeEvents = {}
+RealEv(b) == ReadF(b.c, b.L, "real").ev
 
 FaultCase(k, b, j, ft) ==
   LET L2 == ApplyFault(b.L, ft)
@@ -39,7 +40,8 @@ Next == /\ f = 0
 Emit == \/ f = 0
         \/ LET b == Base(n) IN
            CASE f = -1 -> PrintT(ToJson([base |-> n, c |-> b.c, kind |-> "invalid-base"]))
-             [] f = -2 -> PrintT(ToJson([base |-> n, c |-> b.c, kind |-> "base", lines |-> b.L, o |-> b.o, nfaults |-> NFaults(b.L), realok |-> RealOK(b)]))
+             [] f = -2 -> PrintT(ToJson([base |-> n, c |-> b.c, kind |-> "base", lines |-> b.L, o |-> b.o, nfaults |-> NFaults(b.L), realok |-> RealOK(b),
+                                             rev |-> SetToSeq(RealEv(b)), unsafe |-> SetToSeq(RealEv(b) \cap UnsafeEvents)]))
              [] OTHER  -> LET ft == FaultAt(b.L, b.c, f) IN
                           IF ft.kind = "noop" THEN PrintT(ToJson([base |-> n, j |-> f, c |-> b.c, kind |-> "noop"]))
                           ELSE PrintT(ToJson(FaultCase(n, b, f, ft)))
